@@ -241,7 +241,7 @@ const UNI_ACCOUNTS: &[&str] = &["Ë≥áÁî£:ÈäÄË°å", "Assets:J ÈäÄË°å", "Ë≤ªÁî®:È£üË
 const PUNCT_ACCOUNTS: &[&str] = &["Assets:A=B", "Assets:Foo(bar)", "Expenses:50%", "Assets:a@b", "Liabilities:#1", "Assets:x{y}", "Income:[old]"];
 const ASCII_COMMODITIES: &[&str] = &["USD", "EUR", "JPY", "CHF", "AAPL", "OKANE", "Pt"];
 const UNI_COMMODITIES: &[&str] = &["$", "‚Ç¨", "Á±≥„Éâ„É´", "ÂÜÜ", "‚Çø"];
-const PAYEES: &[&str] = &["Grocery", "My Shop #12", "Transfer to savings", "ACME Corp.", "a", "Rent 2024-03", "Caf√© (downtown)", "x = y @ z"];
+const PAYEES: &[&str] = &["Grocery", "My Shop #12", "Transfer to savings", "ACME Corp.", "a", "Rent 2024-03", "Caf√© (downtown)", "x = y @ z", "(half open", "closed) late"];
 const UNI_PAYEES: &[&str] = &["„Çπ„Éº„Éë„Éº Ë•øÂèã", "B√§ckerei M√ºller", "–ö–æ—Ñ–µ–π–Ω—è", "ÊîØÊâï„ÅÑ 2024"];
 const WORDS: &[&str] = &["note", "paid by card", "weekly", "x", "see receipt 42", "„É°„É¢", "a b  c", "100% sure"];
 const TAGS: &[&str] = &["tag", "Payee", "trip2024", "x-y", "Êó•‰ªò", "k_1"];
@@ -908,6 +908,8 @@ impl SynGen {
                 text.push_str(&format!("{}; {}\n", ind, w));
                 details.push(AccountDetail::Comment(Cow::Owned(format!(" {}\n", w))));
             } else if n_on {
+                // one note in six has no text (`note` followed by blanks only)
+                let w = if self.rng.chance(1, 6) { String::new() } else { w };
                 text.push_str(&format!("{}note{}{}\n", ind, s, w));
                 details.push(AccountDetail::Note(Cow::Owned(format!("{}\n", w))));
             } else if a_on {
@@ -947,6 +949,7 @@ impl SynGen {
                 text.push_str(&format!("{}; {}\n", ind, w));
                 details.push(CommodityDetail::Comment(Cow::Owned(format!(" {}\n", w))));
             } else if n_on {
+                let w = if self.rng.chance(1, 6) { String::new() } else { w };
                 text.push_str(&format!("{}note{}{}\n", ind, s, w));
                 details.push(CommodityDetail::Note(Cow::Owned(format!("{}\n", w))));
             } else if f_on {
